@@ -172,7 +172,7 @@ def reuse_tree_phase(t, term):
     t.outcome("reused-tree-ok")
 
 
-FILE_DATA = {"a\nb": ["a\n\nb", "a\r\n \t\r\nb"]}  # + data holding an empty / blank line (file phase only)
+FILE_DATA = {"a\nb": ["a\n\nb", "a\r\n \t\r\nb"], "\u00e9": ["\u20ac \u2019q\u201d \u2122"]}  # + Windows-1252-only characters  # + data holding an empty / blank line (file phase only)
 
 
 def _variants(term):
@@ -200,8 +200,9 @@ def file_phase(chunk):
     t = Tally()
     f1 = H.v1_fields(102, encoding="UTF-8", charset="NONE")
     f2 = H.v2_fields(203)
-    heads = [("v1-standard", H.render_v1(f1)), ("v1-one-line", H.render_v1(f1, seps=[""] * 8, gap="")), ("v1-cr-only", H.render_v1(f1, seps=["\r"] * 8, gap="\r")),
-             ("v2-standard", H.render_v2(f2)), ("v2-one-line", H.render_v2(f2, br1="", br2=""))]
+    heads = [("v1-standard", H.render_v1(f1), "utf_8"), ("v1-one-line", H.render_v1(f1, seps=[""] * 8, gap=""), "utf_8"), ("v1-cr-only", H.render_v1(f1, seps=["\r"] * 8, gap="\r"), "utf_8"),
+             ("v2-standard", H.render_v2(f2), "utf_8"), ("v2-one-line", H.render_v2(f2, br1="", br2=""), "utf_8"),
+             ("v1-windows-1252", H.render_v1(H.v1_fields(102, encoding="USASCII", charset="1252")), "cp1252"), ("v1-latin-1", H.render_v1(H.v1_fields(102, encoding="USASCII", charset="ISO-8859-1")), "latin_1")]
     for base in chunk:
         for term in _variants(base):
             toks, nleaves = ref_sgml.tokens(term)
@@ -209,12 +210,16 @@ def file_phase(chunk):
                 text = ref_sgml.render(term, lo, None)
                 if ref_sgml.build(text) != term:
                     raise HarnessError(f"reference does not read back {text!r}")
-                for hname, head in heads:
+                for hname, head, codec in heads:
+                    try:
+                        data = (head + text).encode(codec)
+                    except UnicodeEncodeError:
+                        continue
                     t.count("evaluations")
                     t.count("files")
                     case = {"term": term, "leafopts": sorted(lo.items()), "gaps": None, "head": hname}
                     try:
-                        got = ref_sgml.et_to_term(OFXTree().parse(io.BytesIO((head + text).encode("utf_8"))))
+                        got = ref_sgml.et_to_term(OFXTree().parse(io.BytesIO(data)))
                     except Exception as e:
                         t.fail(f"C02|file|{hname}|raises-{type(e).__name__}", case, f"{type(e).__name__}: {e} on {head[-30:] + text!r}")
                         continue
@@ -306,7 +311,7 @@ def run(ctx):
             "every 10th tree is also read in three renderings through one re-used OFXTree object (v2 header + body)",
             "every 25th tree is preceded by four malformed bodies (their refusal is C08's business; here they only precede the well-formed ones)",
             "root of a body is an aggregate",
-            "every tree of <=3 nodes (thorough: <=4 with <=2 non-default leaves), also with data holding a blank line, is read as a whole file through OFXTree.parse() under 5 header layouts x 2 renderings",
+            "every tree of <=3 nodes (thorough: <=4 with <=2 non-default leaves), also with data holding a blank line, is read as a whole file through OFXTree.parse() under 7 headers (5 layouts; Windows-1252 and Latin-1 bodies) x 2 renderings",
         ],
     }
 
